@@ -1,11 +1,11 @@
 #!/bin/sh
 # lib/all_checks.sh [tier] [seed] — every registered check once, sequentially (they share harness/go.mod and the lake build dir),
 # one summary line each; exit 1 if any check exits non-zero.
-TIER=${1:-quick}; SEED=${2:-1}; RC=0
+TIER=${1:-quick}; SEED=${2:-1}; RC=0; L=/tmp/all-$TIER-s$SEED
 cd "$(dirname "$0")/.."
 for P in C01 C02 C03 C04 C05 C06 C07 C08 C09 C10 C11 C12 C13 C14 C15 C16 C17 C18 C19 C20; do
-  VERIF_SEED=$SEED ./check $P --tier $TIER > /tmp/all-$P.log 2>&1; R=$?
+  VERIF_SEED=$SEED ./check $P --tier $TIER > $L-$P.log 2>&1; R=$?
   [ $R -ne 0 ] && RC=1
-  echo "rc=$R $(grep -E "^$P tier=" /tmp/all-$P.log | tail -1) $(grep -c '^VIOLATION' /tmp/all-$P.log) violations $(grep -c '^KNOWN-FINDING' /tmp/all-$P.log) known"
+  echo "rc=$R $(grep -E "^$P tier=" $L-$P.log | tail -1) $(grep -c '^VIOLATION' $L-$P.log) violations $(grep -c '^KNOWN-FINDING' $L-$P.log) known"
 done
 exit $RC
